@@ -464,7 +464,8 @@ def build_configs(tier, seed):
     for spec in ['ElementTetP1', 'ElementTetP2', 'ElementTetRT1', 'ElementTetN1'] + ([] if quick else ['ElementTetCR', 'ElementTetCCR', 'ElementTetMini']):
         sel = [subs_t[i] for i in sorted(rng.choice(len(subs_t), 12 if quick else 60, replace=False))] + [[0, 1], list(range(7))]
         # Crouzeix-Raviart is non-conforming: its trace is determined by the facet DOF at the facet midpoint only
-        add('tet2/%s' % spec, facets_config, mesh='tet2', spec=spec, subsets=sel, free=[0] if quick else None, timeout=900 if quick else 3000,
+        # (all coordinates symbolic: no verdict within 25 min for P2 / RT1 / N1 / CCR - measured; one free vertex in both tiers for those)
+        add('tet2/%s' % spec, facets_config, mesh='tet2', spec=spec, subsets=sel, free=[0] if (quick or spec in ('ElementTetP2', 'ElementTetRT1', 'ElementTetN1', 'ElementTetCCR')) else None, timeout=900 if quick else 3000,
             **(dict(point='mid') if spec == 'ElementTetCR' else {}))
     add('tet2/ElementComposite(ElementTetP2(),ElementTetP0())', facets_config, mesh='tet2', spec='ElementComposite(ElementTetP2(), ElementTetP0())',
         subsets=[[0], [3], [1, 2], [0, 1, 2, 3, 4, 5, 6]], free='none')
